@@ -104,3 +104,10 @@ def BP(n, bmax=4, npairs=2, pmults=(1, 2)):
             for ms in itertools.product(pmults, repeat=npairs):
                 if sum(bullets) + sum(ms) >= n:
                     yield tuple(base + [(m, p) for m, p in zip(ms, combo)])
+
+
+def BU(n, mults=(0, 1, 2, 3, 5, 8, 13)):
+    "bullet votes only, one pile per candidate with a size from mults (0 = no first preferences): large piles, exhausting surpluses"
+    for ms in itertools.product(mults, repeat=n):
+        if sum(ms) >= n:
+            yield tuple((m, (c,)) for c, m in enumerate(ms, 1) if m)
